@@ -69,10 +69,19 @@ pub fn build(after_transfer: bool) -> Setup {
     w.exec(
         BOB,
         &h.incentive,
-        &white_whale_std::pool_network::incentive::ExecuteMsg::OpenFlow { start_epoch: None, end_epoch: Some(10), curve: None, flow_asset: asset(&native("ureward"), 5000), flow_label: None },
+        &white_whale_std::pool_network::incentive::ExecuteMsg::OpenFlow { start_epoch: None, end_epoch: Some(10), curve: None, flow_asset: asset(&native("ureward"), 5000), flow_label: Some("rewards".to_string()) },
         &[coin(1000, "ufee"), coin(5000, "ureward")],
     )
     .expect("flow");
+    // a newer flow by somebody else carrying the same label (labels are not unique): closing "by label" must still
+    // be decided by who created the flow that is actually closed
+    w.exec(
+        MALLORY,
+        &h.incentive,
+        &white_whale_std::pool_network::incentive::ExecuteMsg::OpenFlow { start_epoch: None, end_epoch: Some(10), curve: None, flow_asset: asset(&native("ureward"), 7000), flow_label: Some("rewards".to_string()) },
+        &[coin(1000, "ufee"), coin(7000, "ureward")],
+    )
+    .expect("second flow with the same label");
     if after_transfer {
         let no = Some(NEWOWNER.to_string());
         w.exec(OWNER, &h.fee.pool_factory, &white_whale_std::pool_network::factory::ExecuteMsg::UpdatePairConfig { pair_addr: h.pair.addr.clone(), owner: no.clone(), fee_collector_addr: None, pool_fees: None, feature_toggle: None }, &[]).unwrap();
@@ -266,6 +275,12 @@ pub fn entries(s: &Setup, after_transfer: bool) -> Vec<Entry> {
         "incentive.CloseFlow",
         &h.incentive,
         &white_whale_std::pool_network::incentive::ExecuteMsg::CloseFlow { flow_identifier: white_whale_std::pool_network::incentive::FlowIdentifier::Id(1) },
+        &[own, s.flow_creator.as_str()],
+    ));
+    v.push(e(
+        "incentive.CloseFlow[by label shared with a newer flow of user mallory]",
+        &h.incentive,
+        &white_whale_std::pool_network::incentive::ExecuteMsg::CloseFlow { flow_identifier: white_whale_std::pool_network::incentive::FlowIdentifier::Label("rewards".to_string()) },
         &[own, s.flow_creator.as_str()],
     ));
     // ---- frontend helper, epoch manager
